@@ -216,3 +216,22 @@ Definition fire_seq (sched : list ((St -> St -> bool) * (St -> bool))) (S : St -
   fold_left (fun S p => fire (fst p) (snd p) S) sched S.
 
 End Saturation.
+
+(** REACHABLE_TRAD_FS on diagrams *)
+Definition reach_fs_dd (szS : nat -> nat) (K : nat) (rS rR rOut : rule) (s r : dd) : option dd :=
+  match bfs_front (nat -> nat) (states_of szS K) (rel_mem K rR r) (S (length (states_of szS K)))
+                  (set_mem K rS s) (set_mem K rS s) with
+  | Some Sr => Some (dd_of_set szS K rOut Sr)
+  | None => None
+  end.
+
+(** saturation realised on diagrams: the initial set [s], the events (one
+    relation diagram per level group, all in the relation forest with rule
+    [rR]); the result is built in a forest with rule [rOut] *)
+Definition sat_dd (szS : nat -> nat) (K : nat) (rS rR rOut : rule) (s : dd) (evs : list dd)
+  : option dd :=
+  match saturate (nat -> nat) (states_of szS K) (map (rel_mem K rR) evs)
+                 (S (length (states_of szS K))) (set_mem K rS s) with
+  | Some Sr => Some (dd_of_set szS K rOut Sr)
+  | None => None
+  end.
